@@ -469,18 +469,44 @@ func exec(t []string) string {
 		setArbiters(arbs, kn)
 		c := buildConfirm(common.Uint256{1, 2, 3, byte(sponsor)}, sponsor, ssig, votes)
 		return sanityName(blockchain.ConfirmSanityCheck(c)) + " " + contextName(blockchain.ConfirmContextCheck(c))
-	case "disp": // disp <arbiters> <votes>: ProposalDispatcher.ProcessVote(v, true) for each vote in turn
-		arbs, votes := parseArbs(t[1]), parseVotes(t[2])
-		if len(arbs) == 0 || len(votes) == 0 {
-			panic("harness: disp needs arbiters and votes")
+	case "disp": // disp <arbiters> <items>: votes s:a:h:g reach ProposalDispatcher.ProcessVote(v, true) in turn;
+		// item "v" = the view changes (CleanProposals(true), next view's proposal), "h" = height finished
+		arbs := parseArbs(t[1])
+		items := strings.Split(t[2], ",")
+		if len(arbs) == 0 || len(items) == 0 {
+			panic("harness: disp needs arbiters and items")
 		}
 		setArbiters(arbs, nil)
 		blockchain.DefaultLedger = &blockchain.Ledger{Arbitrators: arbiters}
 		d := manager.NewVerifDispatcher(arbiters)
-		c := buildConfirm(common.Uint256{7, 7, 7}, arbs[0].key, true, votes)
+		view := 0
+		seen := map[int]int{}
 		var parts []string
-		for i := range c.Votes {
-			succeed, _, maj := d.ProcessVote(&c.Votes[i], true)
+		for i, it := range items {
+			if it == "v" || it == "h" {
+				if it == "v" {
+					d.ChangeView()
+				} else {
+					d.FinishHeight()
+				}
+				view++
+				parts = append(parts, fmt.Sprintf("-:%d", d.AcceptCount()))
+				continue
+			}
+			v := parseVotes(it)[0]
+			// the proposal of the current view (one proposal per view; the sponsor does not matter here)
+			prop := payload.DPOSProposal{Sponsor: pubOf(arbs[0].key), BlockHash: common.Uint256{7, 7, 7}, ViewOffset: uint32(view)}
+			ph := prop.Hash()
+			if !v.hashOk {
+				ph[0] ^= 0xff
+			}
+			pv := payload.DPOSProposalVote{ProposalHash: ph, Signer: pubOf(v.signer), Accept: v.accept}
+			if v.signer >= malformedBase && v.sigOk {
+				panic("harness: malformed signer cannot have a valid signature")
+			}
+			pv.Sign = sigFor(v.signer, pv.Data(), v.sigOk, i, seen[v.signer])
+			seen[v.signer]++
+			succeed, _, maj := d.ProcessVote(&pv, true)
 			parts = append(parts, fmt.Sprintf("%s%s:%d", b2s(succeed), b2s(maj), d.AcceptCount()))
 		}
 		return strings.Join(parts, " ")
@@ -794,7 +820,22 @@ func genDisp(g *hx.Gen) {
 	for i, a := range sc.arbs {
 		as[i] = fmt.Sprintf("%d:%c", a.key, a.kind)
 	}
-	g.Emit("disp %s %s", strings.Join(as, ","), fmtVotes(sc.votes))
+	items := strings.Split(fmtVotes(sc.votes), ",")
+	if g.R.Chance(45) {
+		// the view changes (or the height finishes) part-way: an abandoned proposal's votes, then the
+		// next proposal's votes, often by the same signers again
+		cut := g.R.Intn(len(items) + 1)
+		mark := "v"
+		if g.R.Chance(20) {
+			mark = "h"
+		}
+		second := items[cut:]
+		if g.R.Chance(50) {
+			second = append(append([]string{}, items[:g.R.Intn(cut+1)]...), second...)
+		}
+		items = append(append(append([]string{}, items[:cut]...), mark), second...)
+	}
+	g.Emit("disp %s %s", strings.Join(as, ","), strings.Join(items, ","))
 }
 
 func gen(g *hx.Gen) {
@@ -857,16 +898,26 @@ func oracle(t []string, out string) *hx.Violation {
 		if out == "panic" {
 			return nil
 		}
-		arbs, votes := parseArbs(t[1]), parseVotes(t[2])
+		arbs, items := parseArbs(t[1]), strings.Split(t[2], ",")
 		normal := map[int]bool{}
 		for _, a := range arbs {
 			if a.normal {
 				normal[a.key] = true
 			}
 		}
-		good := map[int]bool{}
+		good := map[int]bool{} // valid accepting signers of the current view's proposal
 		for i, o := range strings.Fields(out) {
-			v := votes[i]
+			if i >= len(items) {
+				break
+			}
+			if items[i] == "v" || items[i] == "h" {
+				good = map[int]bool{}
+				if o != "-:0" {
+					return &hx.Violation{Kind: "dispatcher-kept-votes-across-views", Detail: fmt.Sprintf("after item %d (%s) the dispatcher still holds %s accept votes of the abandoned proposal", i, items[i], o[strings.Index(o, ":")+1:])}
+				}
+				continue
+			}
+			v := parseVotes(items[i])[0]
 			if !v.hashOk {
 				return nil // a vote for another proposal: outside the handlers' precondition
 			}
@@ -877,7 +928,7 @@ func oracle(t []string, out string) *hx.Violation {
 				good[v.signer] = true
 			}
 			if o[1] == '1' && 3*len(good) <= 2*len(arbs) {
-				return &hx.Violation{Kind: "dispatcher-majority-without-quorum", Detail: fmt.Sprintf("majority reported after vote %d with %d distinct valid signers of %d arbiters", i, len(good), len(arbs))}
+				return &hx.Violation{Kind: "dispatcher-majority-without-quorum", Detail: fmt.Sprintf("majority reported after vote %d with %d distinct valid signers of the current proposal among %d arbiters", i, len(good), len(arbs))}
 			}
 		}
 	case "chain":
